@@ -18,6 +18,7 @@ func zzPeerQueryName(p Peer, e zzEnd) string {
 func zzCheckEvalOnePair(g *zzGen, pe *PolicyEngine) {
 	peers, err := pe.GetPeersList()
 	vf_Assert(err == nil, "peers-listed")
+	peers = zzStablePeers(peers)
 	n := len(peers)
 	i := vf_Choose("src", n)
 	j := vf_Choose("dst", n)
